@@ -231,6 +231,8 @@ package logqlengine
 //@   capture pp = call(i.pipeline.Process, 0)
 //@   modifies *
 //@   loop 0 modifies *
+//@   loop 0 invariant same(i.iter, old(i.iter))
+//@   ensures[source-kept] same(i.iter, old(i.iter))
 //@   ensures[emit-only-kept]       ret0 ==> n_called && n_r0 && pf_called && pf_r1 && pp_called && pp_r1
 //@   ensures[original-timestamp]   ret0 ==> e.ts == record.Timestamp && pf_a0 == record.Timestamp && pp_a0 == record.Timestamp
 //@   ensures[line-flows-through]   ret0 ==> pf_a1 == record.Body && pp_a1 == pf_r0 && e.line == pp_r0
@@ -365,3 +367,82 @@ package logqlengine
 //@   modifies nothing
 //@   ensures[never-drops] ret1
 //@   ensures[strips-ansi-only] ret0 == ansiRegex.ReplaceAllString(line, "")
+
+// ---- C14: failures surface as errors, every opened reader is closed
+
+//@ scope engine.go
+//@ ghost state func opened() int
+//@ ghost state func holds(it any) int
+
+//@ iface Querier.SelectLogs
+//@   modifies *, opened(), holds(*)
+//@   ensures[owns-what-it-opened] ret1 == nil ==> opened() == old(opened()) + holds(ret0) && holds(ret0) >= 0
+//@   ensures[nothing-left-open-on-error] ret1 != nil ==> opened() == old(opened())
+
+// External tracing interfaces do not touch the modelled state (assumption).
+//@ iface go.opentelemetry.io/otel/trace.Tracer.Start
+//@   modifies nothing
+//@ iface go.opentelemetry.io/otel/trace.Span.End
+//@   modifies nothing
+//@ iface go.opentelemetry.io/otel/trace.Span.RecordError
+//@   modifies nothing
+//@ iface go.opentelemetry.io/otel/trace.Span.SetAttributes
+//@   modifies nothing
+
+//@ func (*Engine).selectLogs
+//@   modifies *, opened(), holds(*)
+//@   ensures[owns-what-it-opened] ret1 == nil ==> ret0 != nil && opened() == old(opened()) + holds(ret0.iter) && holds(ret0.iter) >= 0
+//@   ensures[nothing-left-open-on-error] ret1 != nil ==> opened() == old(opened())
+
+//@ func (*entryIterator).Close
+//@   modifies *, opened(), holds(i.iter)
+//@   ensures[releases-source] opened() == old(opened()) - old(holds(i.iter)) && holds(i.iter) == 0
+
+//@ func (*entryIterator).Err
+//@   modifies nothing
+//@   capture e = call(i.iter.Err, 0)
+//@   ensures[forwards-source-error] e_called && ret0 == e_r0
+
+//@ func groupEntries
+//@   capture ie = call(iter.Err, 0)
+//@   modifies *
+//@   ensures[source-error-surfaces] ie_called && ie_r0 != nil ==> ret1 != nil
+//@   ensures[source-kept] same(iter.iter, old(iter.iter))
+//@   loop 0 modifies *
+//@   loop 0 invariant same(iter.iter, old(iter.iter))
+//@   loop 1 modifies *
+//@   loop 1 invariant same(iter.iter, old(iter.iter))
+
+//@ func (*Engine).evalLogExpr
+//@   modifies *, opened(), holds(*)
+//@   ensures[every-opened-reader-closed] opened() == old(opened())
+
+//@ func (*Engine).evalLiteral
+//@   trusted
+//@   modifies nothing
+
+//@ func (*Engine).sampleSelector
+//@   trusted
+//@   modifies nothing
+
+//@ func (*Engine).evalExpr
+//@   modifies *, opened(), holds(*)
+//@   ensures[every-opened-reader-closed] opened() == old(opened())
+
+// Builders and pure helpers on the path: they allocate, but neither open nor close readers.
+//@ func BuildPipeline
+//@   trusted
+//@   modifies *
+//@ func extractQueryConditions
+//@   trusted
+//@   modifies *
+//@ func addDuration
+//@   inline
+//@ func (EvalParams).IsInstant
+//@   inline
+//@ func (*LabelSet).AsLokiAPI
+//@   trusted
+//@   modifies nothing
+//@ func (*LabelSet).String
+//@   trusted
+//@   modifies nothing
